@@ -24,6 +24,10 @@ pub trait DynW {
     fn d_stat(&self) -> String {
         "-".into()
     }
+    /// `into_inner()` (flushes, returns the backend); wrappers: not available
+    fn d_into_inner(self: Box<Self>) -> Option<R<()>> {
+        None
+    }
 }
 
 pub trait DynR {
@@ -168,6 +172,9 @@ macro_rules! impl_dynw {
             }
             fn d_copy_from(&mut self, r: &mut dyn DynR, n: u64) -> R<()> {
                 BitWrite::<$E>::copy_from(self, &mut RA::<$E>(r, PhantomData), n).map_err(ce)
+            }
+            fn d_into_inner(self: Box<Self>) -> Option<R<()>> {
+                Some((*self).into_inner().map(|_| ()).map_err(ce))
             }
         }
     };
@@ -622,6 +629,39 @@ fn step(cfg: &Cfg, st: &mut State, op: &[&str], outs: &mut Vec<String>, pad: &dy
         ["wd"] => {
             outs.push(hex(&(st.w.dump)()));
             true
+        }
+        // drop the writer (Drop flushes) / unwrap it (into_inner flushes): report the image it
+        // leaves behind and continue with a fresh writer
+        ["wdrop"] | ["winto"] => {
+            let fresh = match make_writer(cfg) {
+                Some(w) => w,
+                None => {
+                    outs.push("bad-config".into());
+                    return false;
+                }
+            };
+            let old = std::mem::replace(&mut st.w, fresh);
+            let Wr { w, dump } = old;
+            if op[0] == "wdrop" {
+                drop(w);
+                outs.push(hex(&dump()));
+                true
+            } else {
+                match w.d_into_inner() {
+                    Some(Ok(())) => {
+                        outs.push(hex(&dump()));
+                        true
+                    }
+                    Some(Err(e)) => {
+                        outs.push(e);
+                        false
+                    }
+                    None => {
+                        outs.push("bad-op".into());
+                        false
+                    }
+                }
+            }
         }
         ["rb", n] => {
             let n = num_or_bad!(n);
